@@ -340,6 +340,43 @@ def install(R):
         if full not in R.fns:
             R.fns[full] = sk_ctor(full.split(".")[-1], meths)
 
+    # ------------------------------------------------------------------ sklearn parents called on in-repo instances
+    def _kmeans_fit(E, self_obj, X=None, y=None, sample_weight=None):
+        """KMeans.fit(self, X, y, sample_weight): sets the fitted attributes, n_iter_ <= max_iter, returns self"""
+        k = self_obj.fields.get("n_clusters")
+        d = X.shape[1] if isinstance(X, NdArr) and X.ndim == 2 else E.size("d", 1)
+        n = X.shape[0] if isinstance(X, NdArr) else E.size("n", 1)
+        self_obj.fields["cluster_centers_"] = NdArr.fresh("centers", (k, d), "real")
+        lab = NdArr.fresh("labels", (n,), "int")
+        i = z3.Int(fresh_name("i"))
+        E.assume(z3.ForAll([i], z3.And(lab.cell.term[i] >= 0, lab.cell.term[i] < z(k))))
+        self_obj.fields["labels_"] = lab
+        self_obj.fields["inertia_"] = E.real("inertia")
+        it = E.int("n_iter")
+        E.assume(z3.And(it >= 0, it <= z(self_obj.fields.get("max_iter", 300))))
+        self_obj.fields["n_iter_"] = it
+        E.trace.append(dict(op="KMeans.fit", obj=self_obj, X=X, y=y, w=sample_weight,
+                            max_iter=self_obj.fields.get("max_iter"), rng="Seeded" if self_obj.fields.get("random_state") is not None else "Global"))
+        return self_obj
+    R.fns["sklearn.cluster.KMeans.fit"] = _kmeans_fit
+
+    def _dtr_fit(E, self_obj, X=None, y=None, sample_weight=None, check_input=True):
+        self_obj.fields["tree_"] = Opaque(z3.Const(fresh_name("tree"), Est), "tree")
+        self_obj.fields["n_features_in_"] = X.shape[1] if isinstance(X, NdArr) and X.ndim == 2 else None
+        E.trace.append(dict(op="DecisionTreeRegressor.fit", obj=self_obj, X=X, y=y, w=sample_weight,
+                            criterion=self_obj.fields.get("criterion")))
+        return self_obj
+    R.fns["sklearn.tree.DecisionTreeRegressor.fit"] = _dtr_fit
+
+    def _signature(E, fn):
+        o = Obj("Signature", tag="Signature")
+        names = ["X", "y", "sample_weight"]
+        if isinstance(fn, ExternFn) and fn.self_obj is not None:
+            names = list(fn.self_obj.fields.get("$fit_params", names))
+        o.fields["parameters"] = {nme: None for nme in names}
+        return o
+    R.fns["inspect.signature"] = _signature
+
     def generic_sklearn_init(E, self_obj, *a, **kw):
         """assumed: scikit-learn estimators store their constructor arguments verbatim"""
         if a:
@@ -422,6 +459,48 @@ def install(R):
         o.fields["$rng"] = "Entropy" if seed is None else "Seeded"
         E.trace.append(dict(op="RandomState", seed=seed, rng=o.fields["$rng"], result=o))
         return o
+    def _rs_randint(E, recv, args, kwargs, node):
+        names = ["low", "high", "size", "dtype"]
+        b = dict(zip(names, args)); b.update(kwargs)
+        before = len(E.trace)
+        r = R.fns["numpy.random.randint"](E, b.get("low"), b.get("high"), b.get("size"))
+        for t in E.trace[before:]:
+            t["rng"] = recv.fields["$rng"]
+        return r
+    R.methods[("RandomState", "randint")] = _rs_randint
+
+    def _rs_shuffle(E, recv, args, kwargs, node):
+        x = args[0]
+        if isinstance(x, NdArr):
+            E.note_write(x, node)
+            x.cell.term = z3.Const(fresh_name("shuffled"), x.cell.term.sort())
+        E.trace.append(dict(op="shuffle", rng=recv.fields["$rng"], obj=recv))
+        recv.events.append(("call", "shuffle"))
+        return None
+    R.methods[("RandomState", "shuffle")] = _rs_shuffle
+
+    def pyx_criterion(name):
+        def f(E, *a, **kw):
+            o = Obj("Criterion", tag="Criterion")
+            o.fields["$class"] = name
+            o.fields["$args"] = a
+            E.trace.append(dict(op="new", cls=name, args=a, result=o))
+            return o
+        return f
+    R.fns["pyx:mlinsights/mlmodel/piecewise_tree_regression_criterion_linear.pyx::LinearRegressorCriterion"] = pyx_criterion("LinearRegressorCriterion")
+    R.fns["pyx:mlinsights/mlmodel/piecewise_tree_regression_criterion_fast.pyx::SimpleRegressorCriterionFast"] = pyx_criterion("SimpleRegressorCriterionFast")
+    R.fns["pyx:mlinsights/mlmodel/piecewise_tree_regression_criterion.pyx::SimpleRegressorCriterion"] = pyx_criterion("SimpleRegressorCriterion")
+
+    def set_hook(E, v):
+        """set(y) for a label vector whose label set is declared by the contract (ghost attribute of the array)"""
+        from .engine import PySet
+        if isinstance(v, NdArr) and getattr(v.cell, "labels", None) is not None:
+            ps = PySet([])
+            ps.items = list(v.cell.labels)
+            return ps
+        return None
+    R.set_hook = set_hook
+
     R.methods[("RandomState", "permutation")] = lambda E, recv, args, kwargs, node: _permutation(recv.fields["$rng"])(E, *args, **kwargs)
 
     # ------------------------------------------------------------------ joblib (A8)
